@@ -403,7 +403,8 @@ def mix_cases(tier):
     dims['T'] = ['iso1000', 'dec', 'cold']
     dims['avail'] = AVAIL
     dims['mode'] = ['xsec', 'ktables']
-    dims['deactive'] = ['none', 'H2O', 'CH4+Na']
+    # (pairs that stand next to each other in the list of available molecules, and all four absorbers)
+    dims['deactive'] = ['none', 'H2O', 'CH4+Na', 'H2O+CH4', 'CO+Na', 'H2O+CH4+CO+Na']
     if not thorough:
         cases = core.product_cases(dims, core=['H2O', 'CH4', 'CO'], d=2)
         cases += core.product_cases(dims, core=['avail', 'mode', 'deactive'], d=0)
